@@ -818,6 +818,18 @@ def has_early_return(ast):
     return bool(found)
 
 
+def loop_condition_hybrids(ast, routine_names=()):
+    """for-loops whose CONDITION contains a value-producing operation with an effect (postfix/prefix ++/--, a statement-expression,
+    a call of a routine): -> list of the offending condition sub-terms"""
+    out = []
+    for n in subterms(ast):
+        if isinstance(n, tuple) and n and n[0] == 'for' and n[2] is not None:
+            for x in subterms(n[2]):
+                if isinstance(x, tuple) and x and (x[0] in ('post', 'pre', 'stmtexpr') or (x[0] == 'call' and x[1] in routine_names)):
+                    out.append(x)
+    return out
+
+
 def redeclared_locals(ast):
     """names declared more than once anywhere in the behaviour -> {name: set of declared types}"""
     out = {}
